@@ -1,6 +1,7 @@
 (* Pinned statements for C20: a changed statement or a new axiom fails the check. *)
 From SwimV Require Import Model.Links Proofs.LinksProofs Props.C20.
 From SwimV Require Model.Counter Proofs.CounterProofs.
+From SwimV Require Model.LinkReports Proofs.LinkReportsProofs.
 Check (C20_reachable_invariant) : (forall a ops, ops_ok (init a) ops -> Inv (run_state (init a) ops)).
 Print Assumptions C20_reachable_invariant.
 Check (C20_step_preserves_invariant) : (forall l o, Inv l -> ok_op l o -> Inv (fst (step l o))).
@@ -15,3 +16,9 @@ Check (C20_single_counts_one) : (forall l lane a ll, agg l = Some a -> alookup l
 Print Assumptions C20_single_counts_one.
 Check (C20_counters_lose_nothing) : (forall sc s, (Counter.value s + Counter.snapped s = Counter.added s)%N -> (Counter.added (Counter.exec s sc) <= Counter.U64MAX)%N -> (Counter.value (Counter.exec s sc) + Counter.snapped (Counter.exec s sc) = Counter.added (Counter.exec s sc))%N).
 Print Assumptions C20_counters_lose_nothing.
+Check (C20_write_task_links_are_live) : (forall nl ops, LinkReportsProofs.links_live (LinkReportsProofs.wrun_state (Uplinks.wstate0 nl) ops)).
+Print Assumptions C20_write_task_links_are_live.
+Check (C20_write_task_reports_true_counts) : (forall nl ops, let w := LinkReportsProofs.wrun_state (Uplinks.wstate0 nl) ops in LinkReports.report w = LinkReports.true_report w).
+Print Assumptions C20_write_task_reports_true_counts.
+Check (C20_removed_remote_has_no_links) : (forall nl ops r, let w := LinkReportsProofs.wrun_state (Uplinks.wstate0 nl) (ops ++ [Uplinks.ORemoveRemote r]) in forall l, Uplinks.linked l r (Uplinks.w_links w) = false).
+Print Assumptions C20_removed_remote_has_no_links.
